@@ -519,6 +519,9 @@ _COMBINATORS = {
     "std::option::Option::unwrap_or_else": ("option", {0: ("unit-call", None), 1: ("payload", None)}),
     "std::option::Option::ok_or_else":     ("option", {0: ("unit-call-wrap", "Err"), 1: ("wrap", "Ok")}),
     "std::option::Option::or_else":        ("option", {0: ("unit-call", None), 1: ("wrap", "Some")}),
+    # three arguments: (x, default, closure)
+    "std::result::Result::map_or":         ("result", {0: ("call", None), 1: ("default", None)}),
+    "std::option::Option::map_or":         ("option", {0: ("default", None), 1: ("call", None)}),
 }
 _VARIANTS = {"result": ("std::result::Result", {0: "Ok", 1: "Err"}), "option": ("std::option::Option", {0: "None", 1: "Some"})}
 
@@ -528,8 +531,16 @@ def _lower_combinator(F, f, raw, blk, t):
     inventory  ->  the explicit two-armed match the combinator stands for, calling the closure where it runs.  Returns True when rewritten."""
     name = strip_generics(t.get("callee") or "")
     spec = _COMBINATORS.get(name)
-    if spec is None or len(t["args"]) != 2 or t["to"] < 0 or t["dest"].get("p"):
+    if spec is None or t["to"] < 0 or t["dest"].get("p"):
         return False
+    with_default = name.endswith("::map_or")
+    if len(t["args"]) != (3 if with_default else 2):
+        return False
+    if with_default:
+        # the closure is the third argument; the rest of this function reads it as the second
+        t = dict(t)
+        default_op = t["args"][1]
+        t["args"] = [t["args"][0], t["args"][2]]
     g = _closure_of_local(F, f, t["args"][1])
     fn_item = False
     if g is None and t["args"][1].get("k") == "c" and t["args"][1].get("fn"):
@@ -585,6 +596,9 @@ def _lower_combinator(F, f, raw, blk, t):
         elif act == "none":
             st.append({"s": "assign", "lhs": dest, "rv": {"r": "agg", "kind": {"adt": "std::option::Option", "variant": "None", "vi": 0}, "a": []}, "ln": ln, "x": False})
             arm_blocks[vi] = new_block(st, {"t": "goto", "to": exit_to, "ln": ln})
+        elif act == "default":
+            st = [{"s": "assign", "lhs": dest, "rv": {"r": "use", "a": [copy.deepcopy(default_op)]}, "ln": ln, "x": False}]
+            arm_blocks[vi] = new_block(st, {"t": "goto", "to": exit_to, "ln": ln})
         else:
             unit_call = act.startswith("unit-")
             res = new_local(g.local_ty(0))
@@ -617,6 +631,35 @@ def _lower_combinator(F, f, raw, blk, t):
 
 def is_anchor(g):
     return any(strip_generics(callee_name(t)) in ANCHOR_SYSCALLS for _, t in g.calls(live_only=False))
+
+
+_REF_CALLS = None
+
+
+def reference_calls(config, path):
+    """what the function of that name called in the reference tree (tables/known_fns.json, per configuration)"""
+    global _REF_CALLS
+    if _REF_CALLS is None:
+        p = os.path.join(os.path.dirname(os.path.dirname(os.path.abspath(__file__))), "tables", "known_fns.json")
+        try:
+            _REF_CALLS = json.load(open(p)).get("by_config", {})
+        except OSError:
+            _REF_CALLS = {}
+    e = (_REF_CALLS.get(config) or {}).get("fns", {}).get(path)
+    return set(e["calls"]) if e else set()
+
+
+def anchor_comes_home(F, f, g):
+    """g is a new helper around a packet system call, and f, which calls it, is a reference function that used to make that system call itself
+    (`UnixCmsg::recv` with the recvmsg moved into a new `read_packet`): looking through g gives f its reference shape back"""
+    if g.kind == "Closure" or g.impl_trait or strip_generics(g.path) in inventory() or g.path in inventory():
+        return False
+    sys_ = {strip_generics(callee_name(t)) for _, t in g.calls(live_only=False)} & set(ANCHOR_SYSCALLS)
+    if not sys_:
+        return False
+    ref = {strip_generics(c) for c in reference_calls(getattr(F, "config", None), f.path)}
+    ref |= {c.replace("platform::unix::", "libc::") for c in ref}
+    return bool(ref) and sys_ <= ref
 
 
 def inlinable(F, g):
@@ -736,6 +779,15 @@ def inline_function(F, f, cm, done, depth=0):
         blk = blocks[i]
         i += 1
         t = blk["term"]
+        if t["t"] == "call" and INLINE_DROPS and not blk["cleanup"] and strip_generics(t.get("callee") or "") == "std::mem::drop" and len(t["args"]) == 1 \
+                and t["args"][0].get("k") == "mv" and not t["args"][0]["pl"].get("p") and t["to"] is not None and t["to"] >= 0:
+            # `drop(value)` of a type that has been given a Drop impl the reference does not have: the same as the value going out of scope here
+            la = t["args"][0]["pl"]["l"]
+            a_ = F.adts.get(locals_[la].get("adt") or "") if la < len(locals_) else None
+            dg_ = F.fns.get(a_["drop"]) if a_ and a_.get("drop") else None
+            if dg_ is not None and dg_.path != f.path and strip_generics(dg_.path) not in inventory() and dg_.path not in inventory() and not is_anchor(dg_):
+                t = {"t": "drop", "pl": {"l": la}, "ty": locals_[la]["t"], "adt": locals_[la].get("adt") or "", "to": t["to"], "unwind": t.get("unwind"), "ln": t.get("ln"), "from_mem_drop": True}
+                blk["term"] = t
         if t["t"] == "drop" and INLINE_DROPS and not blk["cleanup"] and not t.get("glue_only") and depth < MAX_DEPTH:
             # dropping a value of a NEW type (its Drop impl is not in the inventory): run the user Drop body here, then the field glue.
             # This is what makes an RAII guard introduced by a refactor visible to rules that look at one body.
@@ -823,7 +875,7 @@ def inline_function(F, f, cm, done, depth=0):
             if cc:
                 g, mode, wop = cc[0], "closure-call", cc[1]
         # (a closure handed to a helper and invoked there is inlined whatever its number: `f::{closure#0}` of the reference may be another closure today)
-        if g is None or g.path == f.path or not (inlinable(F, g) or (mode == "closure-call" and g.kind == "Closure")):
+        if g is None or g.path == f.path or not (inlinable(F, g) or (mode == "closure-call" and g.kind == "Closure") or (depth == 0 and anchor_comes_home(F, f, g))):
             continue
         if depth >= MAX_DEPTH:
             continue
@@ -882,8 +934,44 @@ def inline_function(F, f, cm, done, depth=0):
         blk["st"] = blk["st"] + binds
         blk["term"] = {"t": "goto", "to": bo, "inlined_call": g.path, "ln": t.get("ln")}
         inlined.append(g.path)
+        _fold_constant_switches(blocks, bo, binds)
     raw["inlined"] = sorted(set(raw.get("inlined", []) + inlined))
     return raw
+
+
+def _fold_constant_switches(blocks, bo, binds):
+    """`set_mode(fd, true)`: a helper that was handed a literal decides on it (`if nonblocking { O_NONBLOCK } else { 0 }`); in the spliced copy the
+    parameter is that literal, so the decision is made here -- a switch on a parameter (or a plain copy of it) bound to a constant becomes a goto."""
+    consts = {}
+    for st in binds:
+        a = st["rv"]["a"][0]
+        if a.get("k") == "c" and isinstance(a.get("v"), int) and a.get("t") in ("bool", "u8", "i32", "u32", "usize", "isize", "u64", "i64"):
+            consts[st["lhs"]["l"]] = a["v"]
+    if not consts:
+        return
+    body = blocks[bo:]
+    ndefs = {}
+    for bl in body:
+        for st in bl["st"]:
+            if st.get("s") == "assign":
+                ndefs[st["lhs"]["l"]] = ndefs.get(st["lhs"]["l"], 0) + 1
+        tt = bl["term"]
+        if tt["t"] == "call" and "dest" in tt:
+            ndefs[tt["dest"]["l"]] = ndefs.get(tt["dest"]["l"], 0) + 1
+    consts = {l: v for l, v in consts.items() if not ndefs.get(l)}
+    for _ in range(3):
+        for bl in body:
+            for st in bl["st"]:
+                if st.get("s") == "assign" and not st["lhs"].get("p") and st["rv"]["r"] == "use" and ndefs.get(st["lhs"]["l"]) == 1:
+                    a = st["rv"]["a"][0]
+                    if a.get("k") in ("cp", "mv") and not a["pl"].get("p") and a["pl"]["l"] in consts:
+                        consts[st["lhs"]["l"]] = consts[a["pl"]["l"]]
+    for bl in body:
+        tt = bl["term"]
+        if tt["t"] == "switch" and tt["on"].get("k") in ("cp", "mv") and not tt["on"]["pl"].get("p") and tt["on"]["pl"]["l"] in consts:
+            v = consts[tt["on"]["pl"]["l"]]
+            tgt = next((tb for av, tb in tt["arms"] if av == v), tt["otherwise"])
+            bl["term"] = {"t": "goto", "to": tgt, "ln": tt.get("ln"), "folded_switch": True}
 
 
 def _each_place(raw, fn):
